@@ -957,6 +957,16 @@ class Evaluator:
             if isinstance(r, bool):
                 return BoolV(r if isinstance(op, ast.In) else not r)
             return CondV(r if isinstance(op, ast.In) else sp.Not(r))
+        if isinstance(a, self.ext.NdArr) or isinstance(b, self.ext.NdArr):
+            arr, other, flip = (a, b, False) if isinstance(a, self.ext.NdArr) else (b, a, True)
+            if isinstance(other, self.ext.NdArr):
+                if other.shape != arr.shape:
+                    self.unsupported("comparison of explicit arrays of different shapes", node, fr)
+                pairs = list(zip(arr.items, other.items))
+            else:
+                pairs = [(x_, other) for x_ in arr.items]
+            out = [self.compare(op, (q if flip else p_), (p_ if flip else q), node, fr) for p_, q in pairs]
+            return self.ext.NdArr(arr.shape, out)
         if isinstance(a, BoolV):
             a = Num(int(a.b))
         if isinstance(b, BoolV):
@@ -1312,6 +1322,8 @@ class Evaluator:
             return self.apply(impl, args, kwargs, fr, node)
         if isinstance(fn, self.ext.PolyV):
             x = args[0]
+            if isinstance(x, self.ext.NdArr):
+                return x.map(lambda e_: Num(fn.expr(e_.expr), kind="number", isfloat=True))
             return Num(fn.expr(x.expr), kind="number", shape=getattr(x, "shape", None), isfloat=True)
         if isinstance(fn, OpaqueV):
             if fn.what == "delayed":
